@@ -56,6 +56,10 @@ STUB_COMPONENTS = []
 ENV = ("none", "none", "none", "pyplot-new-figure", "pyplot-switch", "warn-filter", "rng-consume", "rng-reseed")
 FILTERS = ("default", "always", "once", "ignore")
 REPS = ("f64", "f64", "list", "i64", "ilist", "f32", "u8", "view", "fortran", "f16", "i32", "u16")
+# entry points that are plain functions of their arguments (no pyplot, no caller-owned estimator, no global RNG):
+# what a thread pool may call concurrently on argument objects of its own
+BURST_OK = ("bottleneck", "wasserstein", "heat", "sliced_wasserstein", "persistent_entropy", "kernel", "weight", "exact",
+            "approx")
 
 
 def reset_world():
@@ -212,6 +216,18 @@ def gen_case(rng, tier):
             spec = gen_spec(rng, fx, k, None)
         specs.append(spec)
         op = {"client": k, "env": rng.choice(ENV), "spec": spec}
+        if rng.random() < 0.15:
+            # this client's call runs while 1-2 other threads of the process are inside calls of their own
+            others = []
+            for _ in range(rng.randint(1, 2)):
+                for _try in range(20):
+                    o_ = gen_spec(rng, fx, k, None)
+                    if o_["fn"] in BURST_OK:
+                        others.append(o_)
+                        break
+            if spec["fn"] in BURST_OK and others:
+                op["burst"] = others
+                op["p_switch"] = rng.choice((2, 4, 8))
         if op["env"] == "warn-filter":
             op["filter"] = rng.choice(FILTERS)
         if op["env"] in ("rng-consume", "rng-reseed"):
@@ -328,6 +344,7 @@ def run_case(case, sched):
     env_count = 0
     stats = {"ok": 0, "raised": 0, "skipped": 0, "alt_rep_compared": 0, "reference_forks": 0, "reference_cache_hits": 0}
     stray = []
+    burst_stats = {}
     try:
         from sim.sched import interleave
         for opi, op in interleave(sched, case["ops"], "client", case["config"].get("interleave", "as-listed")):
@@ -385,6 +402,53 @@ def run_case(case, sched):
                                     "%s is not a randomised routine but the global NumPy RNG state changed across the call" % site, opi)
                 return out
 
+            if op.get("burst"):
+                burst = [spec] + list(op["burst"])
+                if len(burst) > 4 or any(not isinstance(b_, dict) or b_.get("fn") not in BURST_OK for b_ in burst):
+                    raise InvalidCase("burst")
+                from sim import callers
+                built = []
+                for b_ in burst:
+                    try:
+                        th_, args_, _ = api.build(dict(b_), fx, None)
+                    except api.Skip:
+                        continue
+                    built.append((b_, th_, args_, api.digest_args(args_)))
+                rng0 = np.random.get_state()[1].tobytes()
+                import contextlib
+                import io
+                with contextlib.redirect_stdout(io.StringIO()):
+                    outs = callers.run_concurrent(sched, [b_[1] for b_ in built], int(op.get("p_switch", 4)), burst_stats)
+                if np.random.get_state()[1].tobytes() != rng0:
+                    raise Violation("global-rng-untouched", site + "(concurrent)", "consumed",
+                                    "concurrent non-randomised calls changed the global NumPy RNG state", opi)
+                for (b_, th_, args_, d0_), (st_, val_) in zip(built, outs):
+                    bsite = site_of(b_) + "(concurrent)"
+                    if st_ == "raised" and isinstance(val_, (api.Skip,)):
+                        continue
+                    if api.digest_args(args_) != d0_:
+                        raise Violation("arguments-untouched", bsite, rep_tag(b_) + "/" + st_,
+                                        "%s modified an argument passed to it (one of %d concurrent callers)" % (bsite, len(built)), opi)
+                    got = ("ok", api.canon(val_)) if st_ == "ok" else ("raised", type(val_).__name__)
+                    ref, hit = reference_of({k_: v for k_, v in b_.items()}, fx, fx_key)
+                    stats["reference_cache_hits" if hit else "reference_forks"] += 1
+                    if ref[0] == "skip":
+                        continue
+                    executed += 1
+                    fns.add(site_of(b_))
+                    if ref[0] != got[0] or (got[0] == "raised" and ref[1] != got[1]):
+                        raise Violation("same-as-alone-in-fresh-process", bsite, "status/" + rep_tag(b_),
+                                        "as one of %d concurrent callers the call %s, alone in a fresh process it %s" % (
+                                            len(built), "returned" if got[0] == "ok" else "raised " + str(got[1]),
+                                            "returned" if ref[0] == "ok" else "raised " + str(ref[1])), opi)
+                    if got[0] == "ok":
+                        where = api.same(got[1], ref[1])
+                        if where:
+                            raise Violation("same-as-alone-in-fresh-process", bsite, "value/" + rep_tag(b_),
+                                            "result of one of %d concurrent callers (each with arguments of its own) differs "
+                                            "from the same call executed alone in a fresh process at %s" % (len(built), where), opi)
+                sched.note("op%d burst of %d ok" % (opi, len(built)))
+                continue
             out = execute(spec, "as issued")
             if out[0] == "skip":
                 stats["skipped"] += 1
@@ -457,7 +521,8 @@ def run_case(case, sched):
         "key": hashlib.sha1(json.dumps([fx, case["ops"]], sort_keys=True, default=str).encode()).hexdigest()[:16],
         "nontrivial": K >= 2 and executed >= 8 and len(fns) >= 5 and env_count >= 2,
         "probes": dict(stats, distinct_entry_points_in_case=len(fns), **{"entry:" + f: 1 for f in fns}),
-        "faults": dict({"env_perturbations": env_count}, **{k_: v for k_, v in world.stats.items() if v}),
+        "faults": dict({"env_perturbations": env_count}, **dict({k_: v for k_, v in world.stats.items() if v},
+                                                                **{"callers_" + k_: v for k_, v in burst_stats.items() if v})),
     }
 
 
@@ -488,6 +553,15 @@ def shrink_candidates(case):
             c = copy.deepcopy(case)
             del c["ops"][i]["alt_rep"]
             yield c
+        if o.get("burst"):
+            c = copy.deepcopy(case)
+            del c["ops"][i]["burst"]
+            yield c
+            for j in range(len(o["burst"])):
+                if len(o["burst"]) > 1:
+                    c = copy.deepcopy(case)
+                    del c["ops"][i]["burst"][j]
+                    yield c
         sp = o["spec"]
         if sp.get("rep"):
             for key, v in sp["rep"].items():
